@@ -523,6 +523,7 @@ def correspond(ctx):
     stream_skeleton(ctx, programs)
     stream_full_syntax(ctx, programs)
     stream_history(ctx, programs)
+    stream_multi(ctx, programs)
     stream_mapping(ctx, programs)
     ctx.cov['programs'] = len(programs)
     ctx.cov['program_names'] = sorted(programs)
@@ -1434,6 +1435,130 @@ def check_api(spec, mol):
             bad.append((n, exp, got))
     return bad
 
+
+
+# ------------------------------------------------------------------------------------------------
+# multi-component (dot-separated) patterns: every component in its own fragment, in every fragment order
+# ------------------------------------------------------------------------------------------------
+
+def check_multi(text, mol, default=False):
+    """property oracle for `comp.comp(.comp)` where each component is a documented bracket atom or two documented atoms joined by a
+    documented bond token (no ring mark): expected = all assignments of the components to pairwise different fragments of the
+    molecule in which every atom / bond has its documented meaning. Returns None (fine or undetermined) or a description."""
+    import re
+    from chython import smarts
+    body = text.split()[0]
+    comps = body.split('.')
+    if len(comps) < 2 or ' ' in text.strip() or any(b.order == 8 for _, _, b in mol.bonds()):
+        return None
+    if default and accel_gap(text, mol):
+        return None
+    attrs = {n: oracle_attrs(mol, n) for n in mol._atoms}
+    # fragments: own traversal over every bond
+    frag, k = {}, 0
+    for n in mol._atoms:
+        if n in frag:
+            continue
+        k += 1
+        st = [n]
+        frag[n] = k
+        while st:
+            x = st.pop()
+            for y in mol._bonds[x]:
+                if y not in frag:
+                    frag[y] = k
+                    st.append(y)
+    cands = []
+    for c in comps:
+        mt = re.fullmatch(r'\[([^\]]*)\](?:([^\[\]]*)\[([^\]]*)\])?', c)
+        if not mt:
+            return None
+        a1, tok, a2 = mt.groups()
+        d1 = doc_parse_atom(a1)
+        if d1 is None or d1['stereo'] is not None or d1['mapping']:
+            return None
+        if a2 is None:
+            row = []
+            for n in mol._atoms:
+                e = oracle_match(d1, attrs[n])
+                if e is None:
+                    return None
+                if e:
+                    row.append((n,))
+        else:
+            d2 = doc_parse_atom(a2)
+            if d2 is None or d2['stereo'] is not None or d2['mapping'] or tok not in BOND_DOC:
+                return None
+            orders = BOND_DOC[tok] or {1}
+            row = []
+            for n, ms in mol._bonds.items():
+                for m, bb in ms.items():
+                    e1, e2 = oracle_match(d1, attrs[n]), oracle_match(d2, attrs[m])
+                    if e1 is None or e2 is None:
+                        return None
+                    if e1 and e2 and bb.order in orders:
+                        row.append((n, m))
+        cands.append(row)
+    exp = set()
+    for combo in itertools.product(*cands):
+        fs = [frag[t[0]] for t in combo]
+        if len(set(fs)) == len(fs):
+            exp.add(tuple(x for t in combo for x in t))
+    q = smarts(body)
+    qn = list(q._atoms)
+    got = {tuple(mp[n] for n in qn) for mp in _mapping(q, mol, default)}
+    if got != exp:
+        return (f'{body} ({"default" if default else "reference"} path): expected-only {sorted(exp - got)[:3]} '
+                f'got-only {sorted(got - exp)[:3]} ({len(exp)} expected, {len(got)} returned)')
+    return None
+
+
+MULTI_FRAGMENTS = ['CO', 'CN', 'CCO', '[Cl-]', 'C[NH3+]', 'CC(=O)[O-]', 'C[N+](C)(C)C', 'c1ccccc1', 'O', '[Na+]', 'CC=O', 'C1CC1', 'CS', 'C#N']
+MULTI_COMPONENTS = ['[O;D1]', '[N;D1]', '[Cl;D0;-]', '[N;D1;+]', '[C;D2]', '[A;a]', '[O;D1;-]', '[N;D4;+]', '[C]', '[O]', '[Na+]', '[A;r3]', '[S,N]',
+                    '[C][O]', '[C]=[O]', '[C]-,=[O]', '[C][N]', '[C]#[N]', '[A]!-[A]', '[C;h3][A]', '[A;D0]', '[O;h2]', '[A+]', '[A-]']
+
+
+def multi_cases(ctx):
+    """(pattern, molecule SMILES): 2-3 components on molecules of 2-4 fragments written in every order"""
+    rng = ctx.rng
+    out = []
+    for _ in range(40 if ctx.quick else 300):
+        frs = rng.sample(MULTI_FRAGMENTS, rng.randint(2, 4))
+        pats = ['.'.join(rng.sample(MULTI_COMPONENTS, rng.randint(2, 3))) for _ in range(3)]
+        # patterns written from the fragments' own atoms so that they do match
+        own = {'CO': '[O;D1]', 'CN': '[N;D1]', 'CCO': '[C;D2]', '[Cl-]': '[Cl;D0;-]', 'C[NH3+]': '[N;D1;+]', 'CC(=O)[O-]': '[O;D1;-]',
+               'C[N+](C)(C)C': '[N;D4;+]', 'c1ccccc1': '[A;a]', 'O': '[O;h2]', '[Na+]': '[Na+]', 'CC=O': '[C]=[O]', 'C1CC1': '[A;r3]',
+               'CS': '[S,N]', 'C#N': '[C]#[N]'}
+        pick = rng.sample(frs, min(len(frs), rng.randint(2, 3)))
+        pats.append('.'.join(own[f] for f in pick))
+        perms = list(itertools.permutations(frs))
+        if len(perms) > 6:
+            perms = rng.sample(perms, 6)
+        for perm in perms:
+            for p_ in pats:
+                out.append((p_, '.'.join(perm)))
+    return list(dict.fromkeys(out))
+
+
+def stream_multi(ctx, programs):
+    from chython import smiles
+    programs.add('QueryContainer.get_mapping (multi-component patterns, every fragment order)')
+    cache = {}
+    for pat, smi in multi_cases(ctx):
+        if smi not in cache:
+            cache[smi] = smiles(smi)
+        m = cache[smi]
+        for default in (False, True):
+            try:
+                bad = check_multi(pat, m, default)
+            except Exception as e:
+                bad = f'{pat} on {smi}: {type(e).__name__}: {e}'
+            ctx.count(('multi', pat, smi, default), n=len(m))
+            ctx.dist('multi:' + ('differs' if bad else 'ok'))
+            if bad:
+                ctx.fail('C08/multi-component-match-differs-from-documented-meaning' + ('/default-path' if default else ''),
+                         f'on {smi}: {bad}', {'kind': 'multi', 'smarts': pat, 'smiles': smi, 'default': default})
+                break
 
 # ------------------------------------------------------------------------------------------------
 # histories: a query that was already used and is then changed through the public API must match like a fresh query
@@ -2379,6 +2504,13 @@ def probe(inp):
             if got != exp:
                 return True, f'atom {n}: labels (neighbors, heteroatoms, hybridization, in_ring) {got}, independent computation {exp}'
         return False, 'labels agree with the independent computation'
+    if kind == 'multi':
+        from chython import smiles
+        try:
+            bad = check_multi(inp['smarts'], smiles(inp['smiles']), bool(inp.get('default')))
+        except Exception as e:
+            bad = f'{type(e).__name__}: {e}'
+        return bool(bad), bad or f'{inp["smarts"]} on {inp["smiles"]}: every assignment of the components to different fragments is returned'
     if kind == 'history':
         try:
             bad = history_case(inp['case'], bool(inp.get('cython')))
